@@ -96,6 +96,9 @@ func run(repo, out string) error {
 	if err := constants(repo, out); err != nil {
 		return err
 	}
+	if err := ints(repo, out); err != nil {
+		return err
+	}
 	return globals(repo, out)
 }
 
@@ -975,3 +978,90 @@ func constants(repo, out string) error {
 }
 
 func strconvUnquote(v string) (string, error) { return strconv.Unquote(v) }
+
+// ---------------------------------------------------------------- integer widths
+
+// ints lists every struct field whose type is an integer type narrower than int, and every explicit
+// conversion to such a type, in the library's packages.  The model counts rows, columns, widths and
+// heights with unbounded naturals; that stands for Go's int (64 bits, sizes bounded by memory) and
+// for nothing narrower.
+func ints(repo, out string) error {
+	narrow := map[string]bool{"int8": true, "int16": true, "int32": true, "uint8": true, "uint16": true, "uint32": true}
+	dirs := []string{".", "auto", "csv", "html", "json", "markdown", "texttable", "texttable/decoration", "length", "properties", "properties/align"}
+	var fields, convs []string
+	for _, d := range dirs {
+		files, err := parseDir(filepath.Join(repo, d))
+		if err != nil {
+			continue
+		}
+		// named types of the package with a narrow underlying type
+		named := map[string]string{}
+		for _, f := range files {
+			for _, decl := range f.Decls {
+				gd, ok := decl.(*ast.GenDecl)
+				if !ok {
+					continue
+				}
+				for _, sp := range gd.Specs {
+					if ts, ok := sp.(*ast.TypeSpec); ok {
+						if id, ok := ts.Type.(*ast.Ident); ok && narrow[id.Name] {
+							named[ts.Name.Name] = id.Name
+						}
+					}
+				}
+			}
+		}
+		isNarrow := func(e ast.Expr) (string, bool) {
+			id, ok := e.(*ast.Ident)
+			if !ok {
+				return "", false
+			}
+			if narrow[id.Name] {
+				return id.Name, true
+			}
+			if u, ok := named[id.Name]; ok {
+				return id.Name + "=" + u, true
+			}
+			return "", false
+		}
+		for _, f := range files {
+			ast.Inspect(f, func(n ast.Node) bool {
+				switch x := n.(type) {
+				case *ast.TypeSpec:
+					if st, ok := x.Type.(*ast.StructType); ok {
+						for _, fl := range st.Fields.List {
+							if tn, ok := isNarrow(fl.Type); ok {
+								for _, nm := range fl.Names {
+									fields = append(fields, fmt.Sprintf("%s: %s.%s %s", d, x.Name.Name, nm.Name, tn))
+								}
+							}
+						}
+					}
+				case *ast.CallExpr:
+					if tn, ok := isNarrow(x.Fun); ok && len(x.Args) == 1 {
+						if _, lit := x.Args[0].(*ast.BasicLit); !lit {
+							convs = append(convs, fmt.Sprintf("%s: %s(%s)", d, tn, src(x.Args[0])))
+						}
+					}
+				}
+				return true
+			})
+		}
+	}
+	var b strings.Builder
+	b.WriteString("-- GENERATED by extract/ from /repo on every check; do not edit.\nnamespace Tab.Generated\n")
+	list := func(name, doc string, l []string) {
+		fmt.Fprintf(&b, "/-- %s -/\ndef %s : List String := [", doc, name)
+		for i, x := range l {
+			if i > 0 {
+				b.WriteString(", ")
+			}
+			b.WriteString(leanStr(x))
+		}
+		b.WriteString("]\n")
+	}
+	list("narrowIntFields", "struct fields of an integer type narrower than int", fields)
+	list("narrowIntConversions", "explicit conversions of a non-literal to an integer type narrower than int", convs)
+	b.WriteString("end Tab.Generated\n")
+	return os.WriteFile(filepath.Join(out, "Ints.lean"), []byte(b.String()), 0o644)
+}
